@@ -154,3 +154,39 @@ func Verif_C12_error_races_other_connection() {
 	verifCoverIf("race-error-first", e.p.inHoldDown)
 	e.p.stop()
 }
+
+// the hold-down drops BOTH connections, also one that has only just been accepted when the error is handled
+func Verif_C12_error_while_inbound_just_accepted() {
+	verifNote("outbound connection in OpenSent / OpenConfirm (symbolic); an inbound connection is handed to the manager and, without waiting, the outbound one receives an unexpected message (FSM error NOTIFICATION is sent): all schedules with at most 2 delays (so the error is also handled before the new inbound FSM's first transition); afterwards the peer is held down, both connections are closed, no FSM is left and no session is or becomes Established; a further inbound connection is refused")
+	e := newPenv(false)
+	e.p.start()
+	st := stOpenSent + verifChoose("outbound-state", 2)
+	co := e.bring(out, st)
+	if co == nil {
+		return
+	}
+	verifDelayBound(2)
+	ci := newStagedConn("in")
+	e.p.incomingConnection(ci)
+	if st == stOpenSent {
+		co.send(verifMsgKeepalive, nil) // unexpected in OpenSent
+	} else {
+		co.send(verifMsgUpdate, []byte{0, 0, 0, 0}) // unexpected in OpenConfirm
+	}
+	verifQuiesce()
+	verifDelayBound(0)
+	sent := len(co.writes) >= 2 && verifAt(co.writes[len(co.writes)-1], 18) == verifMsgNotification && verifAt(co.writes[len(co.writes)-1], 19) == NOTIF_CODE_FSM_ERR
+	verifAssert("fsm-error-notification-sent", sent && co.closed)
+	verifAssert("protocol-error-damps-the-peer", e.p.inHoldDown)
+	verifAssert("hold-down-drops-the-just-accepted-connection-too", ci.closed)
+	verifAssert("hold-down-leaves-no-fsm", e.p.fsms[in] == nil && e.p.fsms[out] == nil)
+	// even if the remote now completes the handshake on the inbound connection nothing may establish
+	ci.send(verifMsgOpen, e.openBody())
+	ci.send(verifMsgKeepalive, nil)
+	verifQuiesce()
+	verifAssert("nothing-establishes-during-the-hold-down", e.pl.nEstab == 0)
+	c3 := e.inject()
+	verifAssert("inbound-refused-during-hold-down", c3.closed && len(c3.writes) == 0)
+	verifCover("error-with-just-accepted-inbound")
+	e.p.stop()
+}
